@@ -339,6 +339,11 @@ class Budget:
             l2 = max(math.hypot(p2[0] - p0[0], p2[1] - p0[1]), 1e-9)
             cross = abs((p1[0] - p0[0]) * (p2[1] - p0[1]) - (p1[1] - p0[1]) * (p2[0] - p0[0]))
             ext = max(cross / l2, 1e-9)  # length of the effective gradient vector P3 - P0
+            if ext < 3.0 * unit:
+                # the first-order analysis below presumes the rounding (0.71 units per point) to be small against the vector it
+                # perturbs; a colour line shorter than three units of the field's resolution (here: a tiny gradient expressed in
+                # the space of a 7x smaller reused outline) may point anywhere after rounding - only its colours are comparable
+                return 1e9
             dv = 1.42 + 1.42 * l1 / l2  # rounding of p0/p1, plus p2's rounding turning the projection axis
             D = 0.0
             if p is not None:
@@ -348,6 +353,8 @@ class Budget:
             return 2 ** -13 + (unit * (0.71 + dv * (D / ext + abs(t))) + pe) / ext
         c0, r0, c1, r1 = g.geom
         ext = max((r1 - r0) - math.hypot(c1[0] - c0[0], c1[1] - c0[1]), 1e-9)
+        if ext < 3.0 * unit:
+            return 1e9
         return 2 ** -13 + (unit * (1.5 + 2.5 * abs(t)) + self._gt_pos_err(g, abs(c1[0]) + abs(c1[1]) + r1 * (1 + abs(t)))) / ext
 
     def _gt_pos_err(self, g, reach):
